@@ -17,8 +17,10 @@ def main(tier):
     return chk.finish()
 
 
+XLINK = 'http://www.w3.org/1999/xlink'
 MARKUP = ('<DIV ID="Top" Class="Xy"><P TITLE="Xy" type="Xy">t</P><input TYPE="CheckBox" CHECKED="checked" Value="V"/>'
-          '<a HREF="#" hreflang="EN">l</a><Span data-K="xY">s</Span></DIV>')
+          '<a HREF="#" hreflang="EN">l</a><Span data-K="xY">s</Span>'
+          '<svg xmlns:xlink="%s"><use xlink:href="#u" xlink:Title="T"/></svg></DIV>' % XLINK)
 
 
 def trace_part(chk, tier):
@@ -39,6 +41,10 @@ def trace_part(chk, tier):
                                           'val': nm(val), 'flag': fl}]], 'cb': []}])
     for k in HTML_ONLY:
         sels.append([{'cs': [[{'k': k}]], 'cb': []}])
+    nssels = []          # namespaced attribute names: case-sensitive in XML and XHTML, folded in HTML
+    for spec in ({'t': 'pfx', 'p': cps('x')}, {'t': 'any'}):
+        for an in ('href', 'HREF', 'Href', 'title', 'Title'):
+            nssels.append([{'cs': [[{'k': 'attr', 'ns': spec, 'name': nm(an), 'op': 'ex', 'val': [], 'flag': 'n'}]], 'cb': []}])
     for parser in ('html.parser', 'lxml', 'html5lib', 'xml'):
         for variant in ('plain', 'xhtml'):
             if variant == 'xhtml' and parser != 'xml':
@@ -50,6 +56,18 @@ def trace_part(chk, tier):
             from harness import sel as selmod
             root = min([i + 1 for i, (p, k) in enumerate(zip(d['parent'], d['kind'])) if p == 0 and k == 'e'] or [0])
             is_plain_xml = parser == 'xml' and variant == 'plain'
+            for j, ast in enumerate(nssels):
+                css = selmod.selector_list(ast)
+                ev = {'id': '%s.%s.ns%d' % (parser, variant, j), 'doc': d, 'sel': ast, 'nsmap': [{'p': cps('x'), 'u': cps(XLINK)}],
+                      'scope': root, 'target': 0, 'css': css}
+                if not (d['xml'] or any(n and common.st(n) == 'http://www.w3.org/1999/xhtml' for n in d['ns'])):
+                    continue          # namespace-unaware trees (html.parser, lxml HTML): prefix selectors are outside C11/C12
+                try:
+                    ev['res'] = [idmap[id(t)] for t in sv.select(css, soup, namespaces={'x': XLINK})]
+                except Exception as e:
+                    ev['res'] = [-2]
+                    ev['exc'] = type(e).__name__
+                lines.append(json.dumps(ev))
             for j, ast in enumerate(sels):
                 k0 = ast[0]['cs'][0][0]['k']
                 if k0 in HTML_ONLY and not is_plain_xml:
